@@ -80,7 +80,7 @@ def driver_text(sc, qcap=16):
     out.append('E')
     return '\n'.join(out) + '\n'
 
-def execute(rep, scen, config='default', label=''):
+def execute(rep, scen, config='default', label='', env=None):
     """Run all scenarios on the real library; returns list of observations (None where the driver died)."""
     exe = lib.build('drv_parser', ['drv_parser.c'], config=config)
     w = lib.workdir('exec' + label + config)
@@ -92,7 +92,7 @@ def execute(rep, scen, config='default', label=''):
         with open(w + '/s.txt', 'w') as f:
             for sc in scen[start:]:
                 f.write(driver_text(sc))
-        d = lib.run_driver(exe, [w + '/s.txt', w + '/o.ndjson'], timeout=1800)
+        d = lib.run_driver(exe, [w + '/s.txt', w + '/o.ndjson'], timeout=1800, env=env)
         done = 0
         if os.path.exists(w + '/o.ndjson'):
             with open(w + '/o.ndjson', errors='replace') as f:
